@@ -8,6 +8,7 @@ import Pcore.Proofs.CtorHash
 import Pcore.Proofs.CtorBinary
 import Pcore.Proofs.CtorTimespan
 import Pcore.Proofs.CtorInit
+import Pcore.Proofs.CtorCanCoerce
 import Pcore.Model.CtorNew
 import Pcore.Generated.FnFacts
 /-!
@@ -102,6 +103,10 @@ Full statement / proved / missing
                          body of a creator whose declaration the arguments satisfy runs, otherwise `new` is the dispatch's
                          ILLEGAL_ARGUMENTS.  `Init[wrapper]` raises CTOR_NOT_FOUND from `IsInstance`; the default `Init`
                          accepts every value; `IsAssignable` with a contained type is false for every type (as the code is).
+* `Alpha.C16_can_coerce_complete`, `Alpha.C16_can_coerce_not_sound` — `types.CanCoerce`: whatever `CoerceTo(T, v)` converts,
+                         `CanCoerce(T, v)` answered true (induction over the type, Struct members included; distinct member
+                         names); the converse fails in the code (witnesses: a non-array for an Array type, sizes, an array
+                         `Init[T]` would expand, a missing member).
 * `Alpha.C16_coerce`, `Alpha.C16_coerce_shape`, `Alpha.C16_coerce_wrapper` — `types.CoerceTo(T, v)` (instance test, ONE
                          `Optional` removed, Array / Hash / Struct element-wise, else `new(T', v)`): the result is an instance
                          of the REQUESTED type T; instances are returned unchanged; `Optional[T]` picks T's constructor;
@@ -663,6 +668,11 @@ theorem C16_coerce_shape (t : Ty) (v : Val) :
   · intro h; rw [coerceTo_eq]; simp [h]
   · intro h; rw [coerceTo_eq]; simp [h, unwrapOpt]
 
+/-- `CanCoerce` is COMPLETE for `CoerceTo`: whatever `CoerceTo(T, v)` converts, `CanCoerce(T, v)` answered `true` (for types
+    whose Struct types have distinct member names).  The converse is false in the code (`C16_can_coerce_not_sound`) -/
+theorem C16_can_coerce_complete (t : Ty) (hnd : t.NodupNames) (v r : Val) (h : coerceTo pf t v = .value r) :
+    canCoerce pf t v = .ok true := can_complete pf t hnd v r h
+
 /-- the wrappers `CoerceTo` does not look into: a value that is not an instance of `NotUndef[T]`, `Variant[…]`, an alias
     or a doubly optional type is refused, even when the wrapped type's constructor would have converted it -/
 theorem C16_coerce_wrapper (w : Ty) (hw : IsWrapper w) (v : Val) :
@@ -758,6 +768,24 @@ example : outText (newModel pfx (.plain structA) [.arr [.arr [.arr [.str "a"], .
     "value (h ((s a) (i 1)))" := by decide +kernel
 example : outText (newModel pfx (.plain structA) [.arr [.arr [.arr [.str "a", .str "b"], .int 1]], .str "tree"]) =
     "reported TYPE_MISMATCH" := by decide +kernel
+
+-- CanCoerce: complete (C16_can_coerce_complete; a nested type with distinct member names, a conversion that succeeds), not sound
+example : (Ty.arr (.struct [("a", false, .int none none), ("b", true, .opt (.int none none))]) 0 none).NodupNames := by
+  simp [Ty.NodupNames, nodupMs]
+example : outText (some (coerceTo pfx (.arr (.struct [("a", false, .int none none)]) 0 none) (.arr [.hash [(.str "a", .str "7")]]))) =
+    "value (a (h ((s a) (i 7))))" := by decide +kernel
+/-- `CanCoerce` says yes where `CoerceTo` fails: a non-array asked against the element type, a size that is not looked at, an
+    array that `Init[T]` would expand, a missing Struct member -/
+theorem C16_can_coerce_not_sound :
+    (canCoerce pfx (.arr (.int none none) 0 none) (.str "3")).toOption = some true ∧
+      outText (some (coerceTo pfx (.arr (.int none none) 0 none) (.str "3"))) = "reported TYPE_MISMATCH" ∧
+    (canCoerce pfx (.arr (.int none none) 1 (some 1)) (.arr [.str "3", .str "4"])).toOption = some true ∧
+      outText (some (coerceTo pfx (.arr (.int none none) 1 (some 1)) (.arr [.str "3", .str "4"]))) = "reported TYPE_MISMATCH" ∧
+    (canCoerce pfx (.int none none) (.arr [.str "11", .int 2])).toOption = some true ∧
+      outText (some (coerceTo pfx (.int none none) (.arr [.str "11", .int 2]))) = "reported ILLEGAL_ARGUMENTS" ∧
+    (canCoerce pfx (.struct [("a", false, .int none none), ("b", false, .int none none)]) (.hash [(.str "a", .str "7")])).toOption = some true ∧
+      outText (some (coerceTo pfx (.struct [("a", false, .int none none), ("b", false, .int none none)]) (.hash [(.str "a", .str "7")]))) =
+        "reported TYPE_MISMATCH" := by decide +kernel
 
 -- Init[T] as a type (C16_init_instance): '0x1F' is an instance of Init[Integer,16] and of Init[Integer] through the
 -- expanded array ['0x1F', 16]; ['0x1F', 16] is NOT an instance of Init[Integer,16] (one argument followed by 16)
